@@ -302,6 +302,10 @@ class QvmCpu:
                     return False
             else:
                 self.tick()
+            if self.halted:
+                # the program has ended; a breakpoint matching here
+                # must not replace the halt reason
+                continue
             for bp in self.breakpoints:
                 if bp(self):
                     self.last_breakpoint = bp
